@@ -134,3 +134,96 @@ Proof.
     + unfold abs_entry, entry_bytes. cbn [re_pid re_off re_len re_st]. f_equal.
       unfold buf'. rewrite slice_overwrite_same by lia. reflexivity.
 Qed.
+
+(* ---------- DUP marking ---------- *)
+Definition dup_bytes (b : bytes) : bytes := match b with x :: t => set_bit3 x :: t | [] => [] end.
+Definition dup_aentry (a : aentry) : aentry := let '(p, b, s) := a in (p, dup_bytes b, s).
+
+Lemma poke_dup_overwrite : forall buf off, off < lenN buf ->
+  poke_dup buf off = overwrite buf off [set_bit3 (nthN off buf 0)].
+Proof.
+  intros buf off H. unfold poke_dup, overwrite.
+  assert (Hd : exists b t, dropN off buf = b :: t).
+  { destruct (dropN off buf) as [|b t] eqn:E; [|eauto]. apply (f_equal lenN) in E. rewrite lenN_dropN, lenN_nil in E. lia. }
+  destruct Hd as [b [t Hd]]. rewrite Hd. f_equal.
+  assert (Hn : nthN off buf 0 = b).
+  { clear - Hd. revert off Hd. induction buf as [|x l IH]; intros off Hd; cbn [dropN nthN] in *; [discriminate|].
+    destruct (N.eqb off 0); [now inversion Hd | now apply IH]. }
+  rewrite Hn. cbn [app]. f_equal. change (lenN [set_bit3 b]) with 1.
+  replace (off + 1) with (1 + off) by lia. rewrite <- dropN_dropN, Hd. cbn [dropN].
+  change (1 =? 0) with false. cbv iota. change (N.pred 1) with 0. now rewrite dropN_0.
+Qed.
+
+Lemma lenN_poke_dup : forall buf off, lenN (poke_dup buf off) = lenN buf.
+Proof.
+  intros. unfold poke_dup. destruct (dropN off buf) as [|b t] eqn:E.
+  - rewrite app_nil_r, lenN_takeN. apply (f_equal lenN) in E. rewrite lenN_dropN, lenN_nil in E. lia.
+  - rewrite lenN_app, lenN_cons, lenN_takeN. apply (f_equal lenN) in E. rewrite lenN_dropN, lenN_cons in E. lia.
+Qed.
+
+Lemma slice_poke_head : forall buf off len, 1 <= len -> off + len <= lenN buf ->
+  sliceN off len (poke_dup buf off) = dup_bytes (sliceN off len buf).
+Proof.
+  intros buf off len H1 H2. unfold poke_dup, sliceN.
+  destruct (dropN off buf) as [|b t] eqn:E.
+  - apply (f_equal lenN) in E. rewrite lenN_dropN, lenN_nil in E. lia.
+  - assert (Ht : lenN (takeN off buf) = off) by (rewrite lenN_takeN; lia).
+    rewrite dropN_app_ge by lia. rewrite Ht, N.sub_diag, dropN_0.
+    cbn [takeN dup_bytes]. destruct (N.eqb_spec len 0); [lia|]. reflexivity.
+Qed.
+
+Lemma slice_poke_other : forall buf off o2 n, off < lenN buf -> (o2 + n <= off \/ off + 1 <= o2) ->
+  sliceN o2 n (poke_dup buf off) = sliceN o2 n buf.
+Proof.
+  intros buf off o2 n H Hd. rewrite poke_dup_overwrite by exact H. destruct Hd.
+  - apply slice_overwrite_before; lia.
+  - apply slice_overwrite_after; cbn [lenN lenN_acc]; lia.
+Qed.
+
+Lemma poke_all_spec : forall es buf lo used,
+  wf_layout lo es used -> used <= lenN buf ->
+  let buf' := fold_left (fun b e => poke_dup b (re_off e)) es buf in
+  lenN buf' = lenN buf /\
+  map (entry_bytes buf') es = map (fun e => dup_bytes (entry_bytes buf e)) es /\
+  (forall o n, o + n <= lo -> sliceN o n buf' = sliceN o n buf).
+Proof.
+  induction es as [|e t IH]; intros buf lo used W U; cbn [fold_left map].
+  - repeat split; reflexivity.
+  - cbn [wf_layout] in W. destruct W as [W1 [W2 W3]]. pose proof (wf_layout_le _ _ _ W3) as Hle.
+    set (b1 := poke_dup buf (re_off e)).
+    assert (L1 : lenN b1 = lenN buf) by apply lenN_poke_dup.
+    specialize (IH b1 (re_off e + re_len e) used W3 ltac:(lia)). cbn zeta in IH.
+    destruct IH as [I1 [I2 I3]]. cbn zeta. refine (conj _ (conj _ _)).
+    + lia.
+    + f_equal.
+      * unfold entry_bytes at 1. rewrite I3 by lia. unfold b1, entry_bytes. apply slice_poke_head; lia.
+      * rewrite I2. clear - W3 W2 Hle U.
+        assert (G : forall lo', re_off e + re_len e <= lo' -> wf_layout lo' t used ->
+                    map (fun x => dup_bytes (entry_bytes b1 x)) t = map (fun x => dup_bytes (entry_bytes buf x)) t).
+        { clear W3. induction t as [|x t IHt]; intros lo' Hlo W; cbn [map]; [reflexivity|].
+          cbn [wf_layout] in W. destruct W as [Wa [Wb Wc]]. pose proof (wf_layout_le _ _ _ Wc). f_equal.
+          - f_equal. unfold entry_bytes, b1. apply slice_poke_other; lia.
+          - apply (IHt (re_off x + re_len x)); [lia|exact Wc]. }
+        apply (G (re_off e + re_len e)); [lia|exact W3].
+    + intros o n Ho. rewrite I3 by lia. unfold b1. apply slice_poke_other; lia.
+Qed.
+
+Lemma dup_abs_maps : forall b b' es,
+  map (entry_bytes b') es = map (fun e => dup_bytes (entry_bytes b e)) es ->
+  map (abs_entry b') es = map (fun x => dup_aentry (abs_entry b x)) es.
+Proof.
+  intros b b'. induction es as [|e t IH]; intros H; cbn [map] in *; [reflexivity|].
+  inversion H. f_equal; [unfold abs_entry, dup_aentry; congruence | now apply IH].
+Qed.
+
+Lemma mark_retained_dup_spec : forall o, arena_wf o ->
+  arena_wf (mark_retained_dup o) /\ abs (mark_retained_dup o) = map dup_aentry (abs o) /\
+  ob_ret (mark_retained_dup o) = ob_ret o /\ ob_ctl (mark_retained_dup o) = ob_ctl o /\
+  ob_rel (mark_retained_dup o) = ob_rel o /\ ob_used (mark_retained_dup o) = ob_used o /\
+  lenN (ob_buf (mark_retained_dup o)) = lenN (ob_buf o).
+Proof.
+  intros o [W U]. pose proof (poke_all_spec (ob_ret o) (ob_buf o) 0 (ob_used o) W U) as H. cbn zeta in H.
+  destruct H as [H1 [H2 H3]]. unfold mark_retained_dup, arena_wf, abs. cbn [ob_buf ob_used ob_ret ob_ctl ob_rel].
+  refine (conj (conj W _) (conj _ (conj eq_refl (conj eq_refl (conj eq_refl (conj eq_refl H1)))))); [lia|].
+  rewrite map_map. apply dup_abs_maps. exact H2.
+Qed.
